@@ -440,7 +440,7 @@ def run(ctx):
     terms, info = [], []
     for i in range(ctx.n(140, 1400)):
         one_history(ctx, i, terms, info)
-    bad = ctx.coq_check(IMPORTS, terms, preamble=PREAMBLE, tag="c20", shard=12)
+    bad = ctx.coq_check(IMPORTS, terms, preamble=PREAMBLE, tag="c20", shard=max(8, (len(terms) + 6) // 7))
     for ix in bad:
         ctx.mismatch("model-vs-impl:history", "the Coq map model (a_run) and the DirectoryNode API differ on this history",
                      case=info[ix], correspondence="map-model-vs-directorynode-api")
